@@ -1211,6 +1211,40 @@ fn scale_script(sys: &Sys, o: &mut Outcome) -> u64 {
                 }
             }
         }
+        // payloads with the STRUCTURE the codec cares about (a copy of every length class at near
+        // and far displacements, long matches followed by a reference back to the start): written
+        // to a compressed path and read back through the filesystem
+        {
+            let mut structured: Vec<Vec<u8>> = crate::lzfam::structure_grid(Tier::Quick).into_iter().step_by(41).map(|i| i.data).collect();
+            structured.extend(crate::lzfam::dense_displacements(Tier::Quick).into_iter().step_by(257).map(|i| i.data));
+            for m in [273usize, 300, 4096, 4097, 70_000] {
+                // 8 distinct bytes, a long run, the same 8 bytes again, a tail
+                let mut v: Vec<u8> = (1..=8u8).collect();
+                v.extend(std::iter::repeat(0u8).take(m));
+                v.extend(1..=8u8);
+                v.extend_from_slice(b"tail");
+                structured.push(v);
+            }
+            for (k, payload) in structured.iter().enumerate() {
+                let p = format!("lzgrid/g{}{}", k, sfx);
+                let loc = k % 2 == 1;
+                match w.fs.write(&p, payload, loc) {
+                    Err(e) => out.push(("scale:write-failed".to_string(), format!("write({:?}, structured payload {} of {} bytes) failed: {}", p, k, payload.len(), e))),
+                    Ok(()) => match w.fs.read(&p, loc) {
+                        Ok(b) if b == *payload => {}
+                        other => out.push(("scale:read-after-write".to_string(), format!("read({:?}) after writing structured payload {} ({} bytes, hex {}…) returned {:?}", p, k, payload.len(), util::hex(&payload[..payload.len().min(24)]), other.map(|b| b.len()).map_err(|e| e.to_string())))),
+                    },
+                }
+                if let Some(actual) = sys.actual(&p, loc) {
+                    if let Ok(stored) = std::fs::read(w.roots[w.roots.len() - 1].join(norm(&actual))) {
+                        match sys.cfg.decode_stored(&stored) {
+                            Ok(d) if d == *payload => {}
+                            other => out.push(("scale:stored-stream".to_string(), format!("the file stored for {:?} (structured payload {}) does not decode to the payload with the reference decoder: {:?}", p, k, other.map(|d| d.len())))),
+                        }
+                    }
+                }
+            }
+        }
         // many distinct paths through ONE filesystem instance (a per-instance memo of paths
         // must not recycle entries wrongly): write all, then revisit all, then overwrite the first
         let many = 1500usize;
@@ -1420,7 +1454,8 @@ pub fn explore(ctx: &Ctx, which: Which) -> Outcome {
             if (which == Which::C12 && sys.cfg.lowers.len() == 1) || c14_scale {
                 transitions += scale_script(&sys, &mut o);
             }
-            if which != Which::C14 && sys.cfg.lowers.len() == 1 {
+            // (C14: once per game, for the configurations that also run the scale script)
+            if (which != Which::C14 && sys.cfg.lowers.len() == 1) || c14_scale {
                 transitions += odd_names_script(&sys, &mut o);
                 wit.push(("odd-names scripts".into(), 1));
             }
